@@ -40,6 +40,7 @@ def Ev.isHandler (r : Nat) : Ev → Bool | .handler r' _ => r' == r | _ => false
 @[simp] theorem hasUpg_append (a b : List Ev) : hasUpg (a ++ b) = (hasUpg a || hasUpg b) := by
   simp [hasUpg]
 @[simp] theorem hasUpg_single (e : Ev) : hasUpg [e] = e.isUpgrade := by simp [hasUpg]
+@[simp] theorem hasUpg_cons (e : Ev) (l : List Ev) : hasUpg (e :: l) = (e.isUpgrade || hasUpg l) := by simp [hasUpg]
 
 theorem okLog_true_of (l : List Ev) (h : ∀ e ∈ l, e.isIo = false) (b : Bool) : okLog b l = true := by
   induction l generalizing b with
